@@ -56,7 +56,7 @@ def oracle(run, sec, case, after_insert_of=None, model_origs=None):
             continue
         break
     from lasio import SectionItems
-    reserved = set(dir(SectionItems))
+    reserved = set(dir(sec))     # class attributes and plain instance attributes shadow item lookup (Python semantics)
     for i, it in enumerate(items):
         try:
             if sec[it.mnemonic] is not it:
@@ -116,6 +116,10 @@ def list_model(origs, op, sec_before):
     elif op[0] == "get":
         if op[3] and find(op[1]) is None:
             o.append(op[1])
+    elif op[0] == "getdef":
+        src = find(op[2]) if isinstance(op[2], str) else (op[2] if -len(o) <= op[2] < len(o) else None)
+        if src is not None and op[3] and find(op[1]) is None:
+            o.append(op[1])
     return o
 
 
@@ -129,6 +133,8 @@ def run_sequence(run, seq, tr, kind):
         r = secops.apply_real(sec, op)
         steps.append({"r": r, "items": secops.dump(sec), "probes": [secops.probe(sec, k) for k in secops.KEYS]})
         ins = op[1] if op[0] == "append" else op[2] if op[0] in ("insert", "setitem") else None
+        if op[0] in ("get", "getdef") and len(origs) > len(secops.dump(sec)) - 0 and False:
+            ins = None
         oracle(run, sec, {"tr": tr, "ops": seq[:n + 1]}, after_insert_of=ins, model_origs=origs)
     final = [useful(x[0]).upper() if tr else useful(x[0]) for x in steps[-1]["items"]]
     nontrivial = len(final) != len(set(final))
@@ -183,8 +189,10 @@ def roundtrip(run, rng):
         except Exception as e:
             run.fail("lasfile-getitem", dict(case, origs_clash=clash(["DEPT"] + cur, tr)), dict(key=c.mnemonic, exc=repr(e)))
     out = io.StringIO()
+    wver = rng.choice([1.2, 2.0])
+    case = dict(case, write_version=wver)
     try:
-        las.write(out, version=2.0)
+        las.write(out, version=wver)
         las2 = lasio.read(out.getvalue(), mnemonic_case=mcase)
     except Exception as e:
         run.fail("roundtrip-raises", case, dict(exc=repr(e)))
@@ -275,7 +283,7 @@ def replay(run, payload):
         # simplest faithful replay: read/write/read and compare session names
         las = lasio.read(text, mnemonic_case=case["mnemonic_case"])
         out = io.StringIO()
-        las.write(out, version=2.0)
+        las.write(out, version=case.get("write_version", 2.0))
         las2 = lasio.read(out.getvalue(), mnemonic_case=case["mnemonic_case"])
         for name in ("Well", "Parameter", "Curves"):
             oracle(run, las.sections[name], dict(case, section=name))
